@@ -19,6 +19,8 @@ __TAPKEE_IMPLEMENTATION(LandmarkMultidimensionalScaling)
     void validate()
     {
         parameters[landmark_ratio].checked().satisfies(InClosedRange<ScalarType>(3.0 / n_vectors, 1.0)).orThrow();
+        // the embedding is spanned by eigenvectors of the landmark problem
+        parameters[target_dimension].checked().satisfies(InRange<IndexType>(1, static_cast<IndexType>(n_vectors * static_cast<ScalarType>(parameters[landmark_ratio])) + 1)).orThrow();
     }
 
     TapkeeOutput embed()
